@@ -12,8 +12,17 @@ static Tap *tap = NULL;
 static std::vector<LogEnt> glog_;
 static size_t g_logCap = (size_t)-1;
 static int g_trunc = 0;
+// deliveries (events, hook calls) and tap entries (key-on/off, patch) are capped separately per play: a vibrato re-keys
+// its notes at every tick, which must not make an ordinary stepped play look like a runaway one
+static size_t g_nDeliv = 0, g_nTap = 0, g_tapCap = (size_t)-1;
+static int g_tapcut = 0;
 struct GLog {
-    void push_back(const LogEnt &e) { if(glog_.size() >= g_logCap) { g_trunc = 1; return; } glog_.push_back(e); }
+    void push_back(const LogEnt &e)
+    {
+        if(e.k == 'e' || e.k == 'h') { if(g_nDeliv >= g_logCap) { g_trunc = 1; return; } ++g_nDeliv; }
+        else { if(g_nTap >= g_tapCap) { g_tapcut = 1; return; } ++g_nTap; }
+        glog_.push_back(e);
+    }
     size_t size() const { return glog_.size(); }
     void clear() { glog_.clear(); }
     const LogEnt &operator[](size_t i) const { return glog_[i]; }
@@ -254,7 +263,7 @@ int main(int argc, char **argv)
             long long untilUs = c.get("until", -1);
             w.key("calls"); w.begin_arr();
             long long calls = 0; int endSeen = 0; int trunc = 0; size_t playStart = glog.size();
-            g_logCap = playStart + 6000; g_trunc = 0;
+            g_logCap = 6000; g_trunc = 0; g_nDeliv = 0; g_nTap = 0; g_tapCap = 6000; g_tapcut = 0;
             while(calls < maxCalls)
             {
                 if(!exact) s = (double)steps.a[(size_t)(calls % (long long)steps.a.size())].num() / 1e6;
@@ -272,13 +281,14 @@ int main(int argc, char **argv)
                     w.end_arr();
                 }
                 ++calls;
-                if(g_trunc || glog.size() - playStart >= 6000) { trunc = 1; break; } // zero-length endless loops: keep the trace bounded
+                if(g_trunc || g_nDeliv >= 6000) { trunc = 1; break; } // zero-length endless loops: keep the trace bounded
                 if(exact) s = r;
                 if(atend) { if(++endSeen >= 2) break; }
                 if(untilUs >= 0 && tellUs() >= untilUs) break;
             }
             w.end_arr();
-            g_logCap = (size_t)-1;
+            g_logCap = (size_t)-1; g_tapCap = (size_t)-1;
+            if(g_tapcut) w.kv("tapcut", 1);
             long long ne = 0;
             for(size_t q = playStart; q < glog_.size(); ++q) if(glog_[q].k == 'e') ++ne;
             w.kv("ncalls", calls); w.kv("ne", ne); w.kv("atend", opn2_atEnd(dev)); w.kv("trunc", trunc);
